@@ -252,9 +252,19 @@ def r4(c, db):
     m = repo.module("annet.annlib.netdev.db")
     fn = repo.func("annet.annlib.netdev.db", "find_true_sequences")
     c.count("functions", 2)
-    gm = GuardMap(fn)
-    rec = [x for x in calls_in(fn) if call_name(x) == "find_true_sequences"]
-    ok = len(rec) == 1 and any(".search(" in a for a in G.atoms(gm.formula(rec[0]))) and "children" in norm(rec[0])
+    # the descent into children: a recursive call (of the function itself or of a nested walker) on <node>["children"], taken only after the node's regexp matched
+    scopes = [fn] + [n for n in ast.walk(fn) if isinstance(n, ast.FunctionDef) and n is not fn]
+    rec = []
+    for sc in scopes:
+        gsc = GuardMap(sc)
+        for x in calls_in(sc):
+            if call_name(x) in (fn.name, sc.name) and "children" in norm(x) and repo.enclosing_func(x) in (sc, None, fn):
+                rec.append((x, gsc))
+    ok = len(rec) == 1
+    if ok:
+        f_ = rec[0][1].formula(rec[0][0])
+        sa_ = [a for a in G.atoms(f_) if ".search(" in a]
+        ok = len(sa_) == 1 and G.implies(f_, G.Atom(sa_[0]))
     c.check("C18.R4", ok, repo.loc(m, fn), "find_true_sequences/nested-descent", "children are searched outside the parent's match test: a family could be true while its ancestor is false",
             key_text="descent")
     bt = repo.func("annet.annlib.netdev.db", "_build_tree")
